@@ -98,6 +98,11 @@ impl ProcessingElement for Rec {
     }
 }
 
+/// set by the harness: the context of the module under test, so that the recording module can
+/// observe whether it is flagged active while its start-up stages run
+static mut CTX_ACTIVE: Option<*const std::sync::atomic::AtomicBool> = None;
+static mut INACTIVE_DURING_STAGE: bool = false;
+
 struct M {
     stages: usize,
 }
@@ -108,6 +113,13 @@ impl Module for M {
     }
     fn at_sim_start(&mut self, stage: usize) {
         log(SIM_START + stage as u8);
+        unsafe {
+            if let Some(p) = CTX_ACTIVE {
+                if !(*p).load(Ordering::SeqCst) {
+                    INACTIVE_DURING_STAGE = true;
+                }
+            }
+        }
     }
     fn num_sim_start_stages(&self) -> usize {
         self.stages
@@ -337,8 +349,12 @@ fn c09_restart() {
     kani::assume(stages <= 3);
     let m = module_with_stack(1, [false; 3], stages);
     m.ctx.active.store(false, Ordering::SeqCst);
+    unsafe {
+        CTX_ACTIVE = Some(&m.ctx.active as *const _);
+    }
     let r = m.module_restart();
     assert!(r.is_ok(), "C09 module_restart succeeds");
+    assert!(!unsafe { INACTIVE_DURING_STAGE }, "C09 a restarted module behaves like a freshly started one: it is active while its start-up stages run");
     assert!(m.ctx.active.load(Ordering::SeqCst), "C09 restart makes the module active again");
     assert!(log_len() == 3 * stages, "C09/C12 each declared stage runs exactly once");
     let mut s = 0;
